@@ -61,7 +61,8 @@ def cases(seed, tier):
         f = list(FORCES[i % len(FORCES)] or [])
         if hs:
             # set-iteration order matters where several names of one kind are collected: two continuous choices
-            f = sorted(set([x for x in f if x != "nocc"] + ["cont2"]))
+            # ... or two/three stochastic states (keys are handed out per name)
+            f = sorted(set([x for x in f if x != "nocc"] + (["cont2"] if (i // 5) % 2 == 0 else ["stoch3"])))
         out.append({"kind": "gen", "seed": seed * 1_000_003 + 55001 + i, "force": f, "n_params": 2, "budget": 2500, "hashseeds": hs})
     return out
 
